@@ -150,6 +150,20 @@ class Bytes(Shape):
             return SBuf(list(vals), True)
         return bytes(vals)
 
+class Str(Shape):
+    """an arbitrary str, opaque to the solver (equality only)"""
+    def build(self, b, name):
+        if b.mode == 'sym':
+            sort = z3.DeclareSort('PyStr')
+            t = z3.Const(b.ctx.uname(name), sort)
+            b.ctx.inputs[name] = t
+            return SOpaque(t, str)
+        if name in b.values and isinstance(b.values[name], str):
+            return b.values[name]
+        v = b.rng.choice(['', 'a', 'abc', 'h\u00e9llo', '\u4e2d\u6587', 'x' * 40])
+        b.values[name] = v
+        return v
+
 class Const(Shape):
     def __init__(self, v):
         self.v = v
@@ -313,7 +327,7 @@ class Contract(object):
     def __init__(self, target, params, requires=None, raises=None, post=None, ensures=None, modifies=None,
                  havoc=None, only_raises=None, unchanged_on_raise=None, name=None, namespace=None,
                  inputs=None, ghost=None, resolver=None, max_paths=None, note=None, trusted=False,
-                 calls=None, applies_when=None):
+                 calls=None, applies_when=None, result_new=None):
         self.target_spec = target
         self.name = name or (target if isinstance(target, str) else getattr(target, '__qualname__', str(target)))
         self.params = dict(params)
@@ -331,6 +345,7 @@ class Contract(object):
         self.note = note
         self.trusted = trusted        # contract assumed, body not verified (listed in evidence)
         self.applies_when = CExpr(applies_when) if applies_when else None
+        self.result_new = result_new      # class spec: the result is a fresh instance of this class
         self._func = None
         self._sig = None
 
@@ -385,6 +400,10 @@ class Contract(object):
             if (cv is True) or (cv is not False and ctx.decide(cv.t)):
                 raise PyRaise(E("<by contract of %s>" % self.qualname()))
         result = None
+        if self.result_new is not None:
+            rcls = resolve(self.result_new)
+            result = object.__new__(rcls)
+            fr.locals['result'] = result
         for (p, e, olds) in olds_post:
             v = e.eval(I, fr, olds)
             if p.is_result:
@@ -490,6 +509,12 @@ class Contract(object):
                 result = None
             if exc is None:
                 fr.locals['result'] = result
+                if con.result_new is not None:
+                    rcls = resolve(con.result_new)
+                    fresh = type(result) is rcls and not any(result is o for o in pre_objs.values())
+                    ctx.oblige("%s/result-is-fresh-%s" % (q, rcls.__name__), fresh)
+                    if not fresh:
+                        return 'return'
                 for (E, cv, text) in rconds:
                     ctx.oblige("%s/returns-only-if-not(%s: %s)" % (q, E.__name__, text), I.not_(cv))
                 for (p, e, olds) in olds_post:
@@ -560,6 +585,8 @@ class Contract(object):
             result = None
         if exc is None:
             env = dict(env, result=result)
+            if self.result_new is not None and type(result) is not resolve(self.result_new):
+                failures.append("result is %r, contract says a fresh %s" % (type(result).__name__, resolve(self.result_new).__name__))
             for (E, cv, text) in rconds:
                 if cv:
                     failures.append("returned although %s was required when %s" % (E.__name__, text))
